@@ -116,6 +116,16 @@ func phaseCall(seqs, refs [][]int, o phOpts, cpus int) phEvent {
 				fmt.Sscanf(p.NtSeq.Name(), "q%d", &k)
 				r.I, r.Removed, r.Pos = k, p.Removed, p.Position
 				r.Nt, r.Codon, r.Aa = b2i(p.NtSeq.SequenceChar()), b2i(p.CodonSeq.SequenceChar()), b2i(p.AaSeq.SequenceChar())
+				// (what was copied is now overwritten in the returned objects: the caller owns them - nothing of it may
+				// show in the input sequences read back below)
+				for _, sq := range []align.Sequence{p.NtSeq, p.CodonSeq, p.AaSeq} {
+					if sq != nil {
+						b := sq.SequenceChar()
+						for j := range b {
+							b[j] = '#'
+						}
+					}
+				}
 			}
 			ev.Results = append(ev.Results, r)
 		}
